@@ -40,6 +40,9 @@ type summary struct {
 	Steps       uint64         `json:"steps"`
 	Switches    uint64         `json:"switches"`
 	Preempts    uint64         `json:"preempts"`
+	SyncPre     uint64         `json:"sync_event_preemptions"`
+	FairYields  uint64         `json:"fair_yields"`
+	SharedIn    int            `json:"shared_inputs"`
 	Faults      map[string]int `json:"faults"`
 	FaultyRuns  int            `json:"faulty_runs"`
 	CleanRuns   int            `json:"fault_free_runs"`
@@ -212,6 +215,9 @@ func main() {
 		sum.Steps += o.Steps
 		sum.Switches += o.Switches
 		sum.Preempts += o.Preempts
+		sum.SyncPre += o.SyncPre
+		sum.FairYields += o.FairYields
+		sum.SharedIn += o.SharedIn
 		if o.MaxOpSteps > sum.MaxOpSteps {
 			sum.MaxOpSteps = o.MaxOpSteps
 		}
